@@ -33,7 +33,7 @@ impl Default for Root {
 pub fn root_from_document(document: &Document) -> Result<Root> {
     let root = document
         .descendants()
-        .find(|n| n.has_tag_name("e57Root"))
+        .find(|n| xml::has_name(n, "e57Root"))
         .invalid_err("Unable to find e57Root tag in XML document")?;
 
     // Required fields
